@@ -28,7 +28,7 @@ class NonTermination(Exception):
 
 
 class _VFile:
-    """virtual file: byte at offset o is (o*7+3) & 0xFF"""
+    """virtual file: the byte at offset o is a fixed function of o with no short period"""
 
     def __init__(self, ctx, size):
         self.ctx, self.size = ctx, size
@@ -51,7 +51,7 @@ class _VFile:
         if k == 0 and self.last == (offset, length):
             raise NonTermination("the same empty read was issued twice: the loop makes no progress")
         self.last = (offset, length) if k == 0 else None
-        return bytes(((offset + i) * 7 + 3) & 0xFF for i in range(k))
+        return _content(offset, offset + k)
 
     def stat(self):
         from paramiko.sftp_attr import SFTPAttributes
@@ -61,7 +61,7 @@ class _VFile:
 
 
 def _content(a, b):
-    return bytes(((o) * 7 + 3) & 0xFF for o in range(a, b))
+    return bytes((o * 31 + (o >> 8) * 17 + (o >> 16) * 101 + 3) & 0xFF for o in range(a, b))
 
 
 class _Req:
@@ -186,7 +186,7 @@ def _ite(c, a, b):
 
 
 def cases(tier):
-    k = 5 if tier == "quick" else 8
+    k = 3 if tier == "quick" else 5
     cs = [check_case("md5", c, k) for c in ("whole-range", "small-blocks", "large-blocks")]
     if tier == "thorough":
         cs.append(check_case("sha1", "small-blocks", 5))
